@@ -1,6 +1,6 @@
 ---------------------------- MODULE TraceDefault ----------------------------
 (* C16: paired probes - the kernel's default action vs the library's emulation - per signal. *)
-EXTENDS Kernel, Sequences, TLC, Json, IOUtils
+EXTENDS Kernel, Integers, Sequences, TLC, Json, IOUtils
 
 Rec == ndJsonDeserialize(IOEnv.TRACE)
 VARIABLES l, known, viol
@@ -50,7 +50,19 @@ TEmulate ==
                ELSE Flag(R.status # "exited:3", "unknown_signal_not_rejected"))
     /\ UNCHANGED known
 
-TNext == TName \/ TNative \/ TEmulate
+\* A stop signal in a re-parented process of a non-orphaned group: what the kernel does natively
+\* (it stops the process) the emulation must do as well. If the sandbox does not re-parent to pid 1
+\* or the kernel itself does not stop the process there, the record says nothing.
+\* the record just before is the kernel's own behaviour in the same situation
+nativeStops == /\ l > 1 /\ Rec[l - 1].e = "reparented" /\ Rec[l - 1].native /\ Rec[l - 1].sig = R.sig
+               /\ Rec[l - 1].status = "exited:0" /\ Rec[l - 1].r.stopped = 1 /\ Rec[l - 1].r.ppid = 1
+TReparented ==
+    /\ Ev("reparented")
+    /\ viol' = viol \cup Flag(R.status # "exited:0", "probe_died")
+                    \cup Flag(R.status = "exited:0" /\ ~R.native /\ R.r.ppid = 1 /\ R.r.stopped # 1
+                              /\ nativeStops, "stop_signal_did_not_stop")
+    /\ UNCHANGED known
+TNext == TName \/ TNative \/ TEmulate \/ TReparented
 TraceSpec == TInit /\ [][TNext]_vars
 
 TraceAccepted ==
